@@ -92,7 +92,7 @@ class Conv:
         e1, e2 = A.err(a1, r1, self.tr1), A.err(a2, r2, self.tr2)
         ok, q = A.order_ok(e1, e2, self.p, floor)
         if np.isfinite(q):
-            self.mg.append(q - (self.p - 1.5))
+            self.mg.append(q - (self.p - max(1.5, 0.3 * self.p)))
         if not ok:
             self.note.fail(key, dict(e1=e1, e2=e2, q=q, scale=scale,
                                      floor=floor))
